@@ -14,11 +14,30 @@
 -/
 import DfolsVerif.Proofs.ModelObj
 import DfolsVerif.Proofs.RunningMean
+import DfolsVerif.Gen.ModelDecisions
 
 namespace Dfols
 namespace C17
 
 open MState Val
+
+/-! ### layer G (translated code): the four tests in model.py that decide which point is kept, as generated
+    from /repo's AST on this run, ARE the decisions of the L1 state machine (`by rfl`). -/
+
+/-- `change_point`: `if allow_kopt_update and (objval[k] < objopt() or (isnan(objopt()) and not isnan(objval[k])))` -/
+theorem gen_changePoint_decision (allow : Bool) (v opt : Val) :
+    Gen.changePointUpdatesKopt allow v opt = (allow && improves v opt) := rfl
+
+/-- `add_new_point`: `if obj < objopt() or (isnan(objopt()) and not isnan(obj))` -/
+theorem gen_addPoint_decision (v opt : Val) : Gen.addPointUpdatesKopt v opt = improves v opt := rfl
+
+/-- `save_point`: `if objsave is None or obj <= objsave or (isnan(objsave) and not isnan(obj))` -/
+theorem gen_savePoint_decision (saved : Option Val) (v : Val) : Gen.savePointAccepts saved v = saveAccepts v saved := by
+  cases saved <;> rfl
+
+/-- `get_final_results`: `if objsave is None or objopt() <= objsave or isnan(objsave)` -/
+theorem gen_getFinal_decision (saved : Option Val) (opt : Val) : Gen.finalPrefersCurrent saved opt = finalPrefersOpt opt saved := by
+  cases saved <;> rfl
 
 variable {P R : Type}
 
